@@ -15,8 +15,9 @@ func init() {
 
 // reasoned exceptions for order-sensitive map traversals (checked by reading)
 var c11MapExceptions = []mrException{
-	{"cmd.parseGFFFile", "coordsMap", "genes are returned in map order, but `extract` writes each gene to its own output file named after the gene; no output byte depends on the order on success"},
-	{"cmd.var subsetCmd", "subset", "indexlist/regexps are built from the map and used for membership tests only (any-match), which are order-insensitive"},
+	{Func: "cmd.parseGFFFile", Map: "coordsMap", Why: "genes are returned in map order, but `extract` writes each gene to its own output file named after the gene; no output byte depends on the order on success"},
+	{Func: "cmd.var subsetCmd", Map: "subset", Why: "indexlist/regexps are built from the map and used for membership tests only (any-match), which are order-insensitive — re-established on every run: the slice parameters of matchSeqName are only scanned",
+		Holds: func(c *Ctx) (bool, string) { return c.sliceParamsScannedOnly("cmd", "matchSeqName") }},
 }
 
 func runC11(c *Ctx) {
